@@ -73,7 +73,7 @@ PROPS["C07"] = {
                   "restoreCmds (C02) and the filter predicates (C06) are parameters, instantiated for the generated entry kinds; real "
                   "goroutine schedules are sampled, the unbounded claim is the theorem over all schedules of the model.",
     "rule": "trace: random RDBs (0..60 entries: strings, Lua aux records, big hashes incl. 99..103 fields around the 100-command pipeline "
-            "batch, lists in the quicklist encoding with 12-16 / 99-103 / 137-206 elements restored element by element; 1..5 databases in any order; same key name in several dbs) x mode sync|restore x Parallel 1..8 x target.db -1|0|3|7 x "
+            "batch, lists in the quicklist encoding with 12-16 / 99-103 / 137-206 elements restored element by element; 1..5 databases in any order; same key name in several dbs; a fifth of the string keys are brace arrangements of the hash-tag rule) x mode sync|restore x Parallel 1..8 x target.db -1|0|3|7 x "
             "key_exists x filter.lua x db/key/slot filter lists x optional failing RESTORE x seeded per-connection reply delays; "
             "chunk (scaled build, chunk limit 64 bytes): one hash delivered as 2..4 chunk entries, Parallel 1..4, rewrite|none, DEL held "
             "back 25 ms. mfile: the real CmdRestore.Main (child process) over 1..4 input files, source.rdb.parallel 1..#files, an optional refused RESTORE in any file. selfail: sync/restore worker pools against a target that refuses SELECT of one database (child process). non-trivial = at least two connections carried data commands; distinct by case text",
